@@ -1,7 +1,7 @@
 // Typed destinations REUSED across the rows of a page (ops reuse / reusex).
 //
-//   reuse  <api> <init> <fv> D <n> <go type>*n <logical response> <wire>   spec-backed
-//   reusex <api> <init> <fv> D <n> <go type>*n <logical response|RAW> <wire>   model-vs-code
+//	reuse  <api> <init> <fv> D <n> <go type>*n <logical response> <wire>   spec-backed
+//	reusex <api> <init> <fv> D <n> <go type>*n <logical response|RAW> <wire>   model-vs-code
 //
 // The destinations are real Go variables (`*[]byte`, `*string`, `*int`, `*int64`, `*bool`, `*time.Time`,
 // `*gocql.UUID`, `*[]string`, `*map[string]int`, `**string`, `*interface{}`, ...; Go types in the token syntax of
@@ -238,7 +238,7 @@ func execReuseOp(w []string) string {
 const (
 	idAscii, idBigint, idBlob, idBoolean, idCounter, idDecimal, idDouble, idFloat, idInt, idText = 1, 2, 3, 4, 5, 6, 7, 8, 9, 0x0A
 	idTimestamp, idUUID, idVarchar, idVarint, idTimeUUID, idInet, idDate, idTime, idSmallint     = 0x0B, 0x0C, 0x0D, 0x0E, 0x0F, 0x10, 0x11, 0x12, 0x13
-	idTinyint, idDuration                                                                       = 0x14, 0x15
+	idTinyint, idDuration                                                                        = 0x14, 0x15
 )
 
 func isTextID(id int) bool { return id == idAscii || id == idBlob || id == idText || id == idVarchar }
